@@ -219,3 +219,37 @@ Check C07_build_lock_tied_to_source :
   /\ forallb snd protocol_facts = true
   /\ forallb (fun x => if String.eqb (fst x) "builder.rs"%string then immediate_b (snd x) else true) sites = true.
 Print Assumptions C07_build_lock_tied_to_source.
+
+(* ---- why the early answer is right (Build/EarlyDirty.v) ---- *)
+From Coq Require Import Lia.
+From Redo Require Import Build.EarlyDirty.
+(* whatever the build of a plain target (no redo-stamp in this run) does --
+   success, failure, any output -- the row it records makes every later check on
+   behalf of a dependent last dealt with before this run answer "dirty", at once
+   and without touching anything: the answer the walk now gives while that
+   build is still under way (fix F71) is the one it would give after waiting *)
+Theorem C07_being_rebuilt_plain_is_dirty_afterwards : forall runid t f sf before rc stdout has_tmp w,
+  (1 <= f <= List.length (rows (dbs w)))%nat ->
+  (0 < runid)%Z ->
+  is_checked runid (load runid (dbs w) f) || is_changed runid (load runid (dbs w) f) = false ->
+  let w' := fst (record_new_state runid t f sf before rc stdout has_tmp w) in
+  forall fuel runid2 cyc w2 c mx seen,
+    existsb (Nat.eqb f) seen = false -> (mx < runid)%Z ->
+    is_dirty (S fuel) runid2 cyc w2 c f (load runid (dbs w') f) mx seen = Ret (VDirty, w2, c, []).
+Proof. exact being_rebuilt_plain_is_dirty_afterwards. Qed.
+Check C07_being_rebuilt_plain_is_dirty_afterwards : forall runid t f sf before rc stdout has_tmp w,
+  (1 <= f <= List.length (rows (dbs w)))%nat ->
+  (0 < runid)%Z ->
+  is_checked runid (load runid (dbs w) f) || is_changed runid (load runid (dbs w) f) = false ->
+  let w' := fst (record_new_state runid t f sf before rc stdout has_tmp w) in
+  forall fuel runid2 cyc w2 c mx seen,
+    existsb (Nat.eqb f) seen = false -> (mx < runid)%Z ->
+    is_dirty (S fuel) runid2 cyc w2 c f (load runid (dbs w') f) mx seen = Ret (VDirty, w2, c, []).
+Print Assumptions C07_being_rebuilt_plain_is_dirty_afterwards.
+(* the premises are met by a target that has just been registered *)
+Example C07_early_dirty_premises :
+  let d := fst (from_name (dbs (init_world 0)) [116%N]) in
+  let f := snd (from_name (dbs (init_world 0)) [116%N]) in
+  (1 <= f <= List.length (rows d))%nat
+  /\ is_checked first_runid (load first_runid d f) || is_changed first_runid (load first_runid d f) = false.
+Proof. vm_compute. split; [lia|reflexivity]. Qed.
